@@ -54,7 +54,20 @@ def block(text):
     return "\n" + text + "\n"
 
 
+PRELUDE = [False]
+
+
 def expect_ok(what, fn, *args):
+    if PRELUDE[0]:
+        # an earlier, unsuccessful attempt in the same session: the same checker is first called with an empty answer and with the answer in the wrong
+        # position (its verdict is irrelevant); the library's own answer must still be accepted afterwards
+        for bad in ((("",) + args[1:]), (args[:1] + ("",) + args[2:]) if len(args) >= 2 and isinstance(args[1], str) else None):
+            if bad is not None:
+                with contextlib.redirect_stdout(io.StringIO()):
+                    try:
+                        fn(*bad)
+                    except Exception:
+                        pass
     buf = io.StringIO()
     with contextlib.redirect_stdout(buf):
         lib(fn, *args)
@@ -85,7 +98,11 @@ class workdir(object):
 def render(kind, spec, layout=None):
     if kind in RT.KINDS:
         return RT.render(kind, spec, layout or {"group": True})
-    return GA.render_cfg(spec) if kind == "cfg" else GA.render_regexp_simple(spec)
+    if kind == "cfg":
+        eps = spec.get("_eps", "ε")
+        text = GA.render_cfg(spec, eps)
+        return text if eps in ("ε", "_") else "epsilon = %s\n%s" % (eps, text)      # a letter as the empty word has to be declared
+    return GA.render_regexp_simple(spec)
 
 
 WORDS_FN = {"dfa": NB.check_dfa_language_from_words, "nfa": NB.check_nfa_language_from_words, "pda": NB.check_pda_language_from_words,
@@ -257,6 +274,7 @@ def nondegenerate_cfg(draw, max_vars=4):
             spec["R"].append([A, [spec["T"][draw(st.integers(0, 1))] for _ in range(draw(st.integers(1, 2)))]])
     spec["R"] = [r for r in spec["R"] if r[0] == spec["S"]] + [r for r in spec["R"] if r[0] != spec["S"]]
     spec["T"] = sorted({x for _, rhs in spec["R"] for x in rhs if x not in spec["V"]})
+    spec["_eps"] = draw(st.sampled_from(["ε", "ε", "_", "e", "z"]))
     return spec
 
 
@@ -327,17 +345,36 @@ def ex_notebooks(tier):
     return ("the code cells of all %d shipped notebooks in notebooks/with-answers" % len(names), ({"notebook": n} for n in names))
 
 
-R0 = "reference object -> file -> make_notebook.apply_command -> checker of the template with the template's arguments; required: first output line OK; "
+R0 = "(one case in three is preceded by unsuccessful calls of the same checker, as in a session with earlier attempts) reference object -> file -> make_notebook.apply_command -> checker of the template with the template's arguments; required: first output line OK; "
+def with_prelude(run):
+    def wrapped(case):
+        PRELUDE[0] = bool(case.get("prelude"))
+        try:
+            return run(case)
+        finally:
+            PRELUDE[0] = False
+    return wrapped
+
+
+def cases_with_prelude(strategy):
+    @st.composite
+    def s(draw, tier):
+        case = draw(strategy(tier))
+        case["prelude"] = draw(st.integers(0, 2)) == 0
+        return case
+    return s
+
+
 CLAUSES = [
-    Clause("for_language", for_language_cases, run_for_language, quick=500, thorough=4000,
+    Clause("for_language", cases_with_prelude(for_language_cases), with_prelude(run_for_language), quick=500, thorough=4000,
            rule=R0 + "six kinds, reference rendered in generated layouts, word list from generate(file, length), answer = load(file); non-trivial: >= 2 words"),
-    Clause("nfa2dfa", nfa2dfa_cases, run_nfa2dfa, quick=500, thorough=4000, rule=R0 + "random NFAs (printable eps, generated layouts); non-trivial: >= 2 DFA states"),
-    Clause("dfa2regexp", dfa2regexp_cases, run_dfa2regexp, quick=150, thorough=1200, rule=R0 + "DFAs with <= 3 states over letter alphabets, lengths 4-6 and the default 8; non-trivial: >= 2 states"),
-    Clause("product", product_cases, run_product, quick=400, thorough=3000, rule=R0 + "pairs of DFAs over a common alphabet (overlapping or disjoint names) x 3 operations"),
-    Clause("unary", unary_cases, run_unary, quick=600, thorough=5000, rule=R0 + "DFAs (also inflated, with unreachable states) x {complement, reverse, minimal (quotient), minimal (Hopcroft)}"),
-    Clause("cyk", cyk_cases, run_cyk, quick=400, thorough=3000, rule=R0 + "CNF grammars in simple format x words of length 1-5"),
-    Clause("derivation", derivation_cases, run_derivation, quick=400, thorough=3000, rule=R0 + "CNF grammars x generated words x {leftmost, rightmost, any}"),
-    Clause("chomsky", chomsky_cases, run_chomsky, quick=200, thorough=1500, rule=R0 + "non-degenerate simple grammars x phases 1..5 with a fresh start-variable name; non-trivial: >= 3 phases change the grammar"),
+    Clause("nfa2dfa", cases_with_prelude(nfa2dfa_cases), with_prelude(run_nfa2dfa), quick=500, thorough=4000, rule=R0 + "random NFAs (printable eps, generated layouts); non-trivial: >= 2 DFA states"),
+    Clause("dfa2regexp", cases_with_prelude(dfa2regexp_cases), with_prelude(run_dfa2regexp), quick=150, thorough=1200, rule=R0 + "DFAs with <= 3 states over letter alphabets, lengths 4-6 and the default 8; non-trivial: >= 2 states"),
+    Clause("product", cases_with_prelude(product_cases), with_prelude(run_product), quick=400, thorough=3000, rule=R0 + "pairs of DFAs over a common alphabet (overlapping or disjoint names) x 3 operations"),
+    Clause("unary", cases_with_prelude(unary_cases), with_prelude(run_unary), quick=600, thorough=5000, rule=R0 + "DFAs (also inflated, with unreachable states) x {complement, reverse, minimal (quotient), minimal (Hopcroft)}"),
+    Clause("cyk", cases_with_prelude(cyk_cases), with_prelude(run_cyk), quick=400, thorough=3000, rule=R0 + "CNF grammars in simple format x words of length 1-5"),
+    Clause("derivation", cases_with_prelude(derivation_cases), with_prelude(run_derivation), quick=400, thorough=3000, rule=R0 + "CNF grammars x generated words x {leftmost, rightmost, any}"),
+    Clause("chomsky", cases_with_prelude(chomsky_cases), with_prelude(run_chomsky), quick=200, thorough=1500, rule=R0 + "non-degenerate simple grammars x phases 1..5 with a fresh start-variable name; non-trivial: >= 3 phases change the grammar"),
     Clause("shipped_notebooks", None, run_notebook, quick=0, thorough=0, exhaustive=ex_notebooks, rule="every check cell of the shipped with-answers notebooks prints OK when executed in-process"),
 ]
 KNOWN_PREDICATES = {}
